@@ -208,9 +208,10 @@ def finalize (s : Store) (acct o now : Nat) (csrOk signOk updFail : Bool) : Stor
             | none => (s2, .ise)
             | some ord2 => (setOrder s2 o ord2 .valid (some cid), .ok .valid)
 
-/-- acme_account_orders_index entry of an account: `none` = no entry; `some []` = an entry whose
-    value is empty (what `save(nil)` leaves behind on bbolt: `Put(key, nil)` stores a zero-length
-    value and `Get` returns it without error), on which the next `json.Unmarshal` fails. -/
+/-- acme_account_orders_index entry of an account: `none` = no entry. `some []` is an entry whose
+    value is empty: what `save(nil)` leaves behind on bbolt when the list became empty. Since
+    /repo commit 23d8883 a zero-length value is read as the empty list (before, `json.Unmarshal`
+    failed on it and every later new-order / orders-list of the account answered 500). -/
 def indexOf (s : Store) (acct : Nat) : Option (List Nat) :=
   (s.index.find? (·.1 == acct)).map (·.2)
 
@@ -228,20 +229,16 @@ def pollLoop (s : Store) (now : Nat) : List Nat → Store × Option (List Nat)
       | (s2, none) => (s2, none)
       | (s2, some keep) => (s2, some (if st = .pending then o :: keep else keep))
 
-/-- nosql updateAddOrderIDs(accID, false, add…): an unreadable (empty) entry is an error before
-    anything is updated; nothing is written when the list was and stays empty; an emptied list is
-    written as nil (see `indexOf`). -/
+/-- nosql updateAddOrderIDs(accID, false, add…): a missing or empty entry is the empty list;
+    nothing is written when the list was and stays empty; an emptied list is written as nil. -/
 def pollIndex (s : Store) (acct now : Nat) (add : List Nat) : Store × Option (List Nat) :=
-  match indexOf s acct with
-  | some [] => (s, none)
-  | e =>
-    let old := e.getD []
-    match pollLoop s now old with
-    | (s1, none) => (s1, none)
-    | (s1, some keep) =>
-      let nu := keep ++ add
-      if old = [] ∧ nu = [] then (s1, some [])
-      else (setIndex s1 acct nu, some nu)
+  let old := (indexOf s acct).getD []
+  match pollLoop s now old with
+  | (s1, none) => (s1, none)
+  | (s1, some keep) =>
+    let nu := keep ++ add
+    if old = [] ∧ nu = [] then (s1, some [])
+    else (setIndex s1 acct nu, some nu)
 
 /-- newAuthorization for the identifiers of a new order; `nch` = number of challenges of each -/
 def createAuthzs (s : Store) (acct exp : Nat) : List Nat → Store × List Nat
